@@ -8,7 +8,7 @@ import (
 )
 
 type jsonMessage struct {
-	Tag      Tag
+	Tag      *Tag
 	DataType DataType
 	Value    json.RawMessage
 }
@@ -86,7 +86,10 @@ func (m *Message) UnmarshalJSON(b []byte) (err error) {
 	if err := json.Unmarshal(b, &jm); err != nil {
 		return fmt.Errorf("%w: %s", ErrJSONUnmarshal, err)
 	}
-	m.Tag = jm.Tag
+	if jm.Tag == nil {
+		return fmt.Errorf("%w: a message requires a Tag", ErrJSONUnmarshal)
+	}
+	m.Tag = *jm.Tag
 	if jm.DataType == UnsetDataType {
 		m.DataType = m.Tag.DataType()
 	} else {
